@@ -124,7 +124,14 @@ TEnd ==
   /\ UNCHANGED <<vars, dev, why, prev, lin>>
   /\ l' = l + 1
 
-Matched == TIn \/ TOut \/ TSnap \/ TExit \/ TEnd
+\* ---- (real-process traces) nothing more arrived within the quiet interval ----
+TQuiet ==
+  /\ l <= N /\ ~dev /\ E.e = "quiet"
+  /\ out = None
+  /\ UNCHANGED <<vars, dev, why, prev, lin>>
+  /\ l' = l + 1
+
+Matched == TIn \/ TOut \/ TSnap \/ TExit \/ TEnd \/ TQuiet
 
 -----------------------------------------------------------------------------
 (* Classification of a deviation: which listed property does the first      *)
@@ -157,7 +164,7 @@ SenderLabel ==
                    ELSE IF E.k = "data" /\ E.n = Wire(out.next) THEN "C01:WrongContent"
                    ELSE IF why = "ack" THEN "C08,C01:WrongBlock"
                    ELSE "C01:WrongBlock"
-    [] E.e \in {"snap", "in", "end"} ->
+    [] E.e \in {"snap", "in", "end", "quiet"} ->
          IF out # None
          THEN IF out.k = "err" THEN "C07:MissingErrorReply"
               ELSE IF out.c > 0 THEN "C16:MissingCopy"
@@ -186,7 +193,7 @@ ReceiverLabel ==
                    ELSE IF E.k # "ack" THEN "C02:WrongKind"
                    ELSE IF E.n # out.n THEN "C02:AckNumber"
                    ELSE "C02:AckNotStored"
-    [] E.e \in {"snap", "in", "end"} ->
+    [] E.e \in {"snap", "in", "end", "quiet"} ->
          IF out # None
          THEN IF out.c > 0 THEN "C16:MissingCopy"
               ELSE IF why = "ooseq" THEN "C04:MissingReAck" ELSE "C08,C02:MissingAck"
